@@ -1054,6 +1054,8 @@ def gen_cfg(rng, alpha_kinds=('fixed',), universe_kinds=('static',), max_days=25
         mk['int_closes'] = True                      # closes in whole units (written without decimals), opens fractional
         mk['level'] = {s_: rng.uniform(20, 400) for s_ in syms}
         mk['ratio'] = {s_: 1.0 for s_ in syms}
+    if rng.random() < 0.12:
+        mk['jumps'] = {'p': rng.choice([0.04, 0.12]), 'size': rng.choice([0.4, 0.6, 0.75])}
     cfg['market'] = mk
     cfg['both_sizing_kwargs'] = rng.random() < 0.25
     cfg['loud'] = rng.random() < 0.2          # the library's event printing left at its default (on)
